@@ -10,6 +10,12 @@ Three kinds of cases, all against the real code of the tree under test:
   re      the live compiled regex of a base type (`lang.X.regex.match(text, pos)`)
           against `Re.pyMatch` on the generated AST: engine + translator.
   proc    the live default conversion lambdas against `Gen.Procs`.
+
+A tokens case may carry `hist` (round X04): the line is then loaded through a *fresh* meta-model
+(`v*=` / `v+=` / `v=TYPE`, construction parameters) that went through a history of
+`register_obj_processors` calls (on it and on another meta-model) and earlier loads; at the end the
+built-in conversion of the type is in force by the documented semantics ("registration replaces the
+previous one") and the property's conclusion applies.  Lean side: `Registry.after`.
 """
 import math
 import re
@@ -85,6 +91,29 @@ def builtins_in_force(case):
         if st["op"] == "reg" and st["on"] == "self":
             last = st
     return last is None or not any(k in last["procs"] for k in relevant_keys(case["type"]))
+
+
+INFORCE_KEYS = BASE_KEYS + ["Model", "ID"]
+
+
+def reg_history(case):
+    """the register_obj_processors calls on the meta-model under test, in order (what `Registry.after` folds over)"""
+    return [[[k, v] for k, v in st["procs"].items()] for st in case["hist"].get("steps", [])
+            if st["op"] == "reg" and st["on"] == "self"]
+
+
+def in_force(mm):
+    """which callable the meta-model's processor table binds to every key: 'builtin' / 'user:NAME' / 'none'
+    (None when the table is not where the class docstring says it is: then nothing is compared)"""
+    tab = getattr(mm, "_obj_processors", None)
+    if not isinstance(tab, dict):
+        return None
+    names = {id(f): n for n, f in USER_PROCS.items()}
+    out = []
+    for k in INFORCE_KEYS:
+        f = tab.get(k)
+        out.append("none" if f is None else "user:" + names[id(f)] if id(f) in names else "builtin")
+    return out
 
 
 def run_history(case):
@@ -209,6 +238,7 @@ class Prop(Check):
         "BaseTypes.C04_string_text",
         "BaseTypes.C04_scanner_exact",
         "BaseTypes.C04_strInt_kind",
+        "BaseTypes.C04_registration_replaces",
     ]
     DRIVER = "Drivers/Re.lean"
     PROCS_THOROUGH = 3
@@ -219,7 +249,10 @@ class Prop(Check):
             "form; all BOOL spellings) with separators and continuations, through `Model: v*=TYPE;`; re cases: 40 texts "
             "per live regex; proc cases: live conversion lambdas.  non-trivial = a tokens case whose literals all satisfy "
             "the property's hypothesis and that contains an escaped quote, a backslash, a newline, a sign, an exponent, "
-            "a '.' or more than one literal; or a re/proc case with at least one match")
+            "a '.' or more than one literal; or a re/proc case with at least one match.  history cases (round X04): the same "
+            "lines on a fresh meta-model (`v*=`, `v+=`, `v=TYPE`; memoization / use_regexp_group / autokwd) taken through "
+            "register_obj_processors calls with user processors for base types on it and on another meta-model and through "
+            "earlier (also failing) loads, ending with a registration that does not mention the type")
     MODELLED = ("regenerated (tie T): the six base-type regexes of textx/lang.py (Python's re._parser -> Re.R) and the "
                 "default conversion lambdas of textx/metamodel.py (ast -> Gen.Procs); hand-modelled: the regex engine "
                 "(Re.m vs re.match, tie X op re), `v*=TYPE` + EOF with whitespace skipping (BaseTypes.tokens, tie X op "
@@ -228,7 +261,10 @@ class Prop(Check):
                 "generated literal (str(int), repr, %e, %E, %g, %f, .5, 5., 12e5), `lineHyp` (the decidable hypotheses of "
                 "C04_line_checked) is evaluated by the driver on every generated line and compared with the harness's "
                 "own hypothesis predicate, the values the theorem promises are compared with the implementation, and "
-                "Py.strInt is compared with str(int); not exhibited: the numeric value computed by float() (int() is "
+                "Py.strInt is compared with str(int); the processor table (register_obj_processors = fresh copy of the "
+                "defaults updated by the user's dict: Registry.after, theorem C04_registration_replaces) is compared with the "
+                "live `_obj_processors` after every generated history; "
+                "not exhibited: the numeric value computed by float() (int() is "
                 "modelled: Py.intOf), Unicode classification (a parameter; Python's own tables are sent with each case)")
     ASSUMPTIONS = [
         "CPython: float(repr(x)) == x and float() accepts every literal the FLOAT regexes match",
@@ -535,6 +571,12 @@ class Prop(Check):
         return out
 
     # ------------------------------------------------------------------ implementation
+    @staticmethod
+    def _with(table, obs):
+        if table is not None:
+            obs["inforce"] = table
+        return obs
+
     def impl(self, case):
         use_repo()
         k = case["k"]
@@ -542,22 +584,24 @@ class Prop(Check):
         if k == "tokens":
             from textx.exceptions import TextXSyntaxError, TextXError
 
+            table = None
             try:
                 mm = run_history(case) if case.get("hist") else _mm(case["type"])
+                table = in_force(mm) if case.get("hist") else None
                 model = mm.model_from_str(text)
             except TextXSyntaxError as e:
                 lines = text.split("\n")
                 pos = sum(len(l) + 1 for l in lines[: e.line - 1]) + (e.col - 1)
-                return {"ok": False, "pos": pos, "line": e.line, "col": e.col}
+                return self._with(table, {"ok": False, "pos": pos, "line": e.line, "col": e.col})
             except TextXError as e:
-                return {"ok": False, "err": type(e).__name__, "msg": str(e)[:200]}
+                return self._with(table, {"ok": False, "err": type(e).__name__, "msg": str(e)[:200]})
             except Exception as e:
-                return {"ok": False, "exc": type(e).__name__, "msg": str(e)[:200]}
+                return self._with(table, {"ok": False, "exc": type(e).__name__, "msg": str(e)[:200]})
             if isinstance(model, str):  # nothing matched: textX returns the (empty) matched text instead of an object
-                return {"ok": True, "vals": [], "noobj": model}
+                return self._with(table, {"ok": True, "vals": [], "noobj": model})
             if (case.get("hist") or {}).get("form") == "=":  # single assignment: the value itself
-                return {"ok": True, "vals": [value_view(model.v)]}
-            return {"ok": True, "vals": [value_view(v) for v in model.v]}
+                return self._with(table, {"ok": True, "vals": [value_view(model.v)]})
+            return self._with(table, {"ok": True, "vals": [value_view(v) for v in model.v]})
         if k == "re":
             from textx import lang
 
@@ -593,6 +637,9 @@ class Prop(Check):
                 ints = [it["v"] for it in case["items"] if it["k"] == "int"]
                 if ints:
                     req["ints"] = ints  # Py.strInt against Python's str(int)
+            if case.get("hist"):
+                req["hist"] = reg_history(case)  # Registry.after: the processor table after the registrations
+                req["keys"] = INFORCE_KEYS
             return req
         if k == "re":
             allt = "".join(uncps(p) + uncps(t) for p, t in case["items"])
@@ -619,6 +666,18 @@ class Prop(Check):
             return f"model rejected the request: {out}"
         k = case["k"]
         if k == "tokens":
+            if case.get("hist"):
+                # the processor table: Registry.after (the theorem C04_registration_replaces is about it) against the
+                # live table, and against the harness's own predicate "the built-in conversion is in force"
+                if "inforce" not in out:
+                    return f"model did not answer the registry question: {out}"
+                tab = dict(zip(INFORCE_KEYS, out["inforce"]))
+                mine = all(tab[key] in ("builtin", "none") for key in relevant_keys(case["type"]))  # NUMBER has no entry
+                if mine != builtins_in_force(case):
+                    return f"built-in conversion in force for {self.where(case)}: Lean's table says {mine}, the harness {not mine}"
+                if obs.get("inforce") is not None and obs["inforce"] != out["inforce"]:
+                    return (f"processor table of {self.where(case)}: implementation "
+                            f"{dict(zip(INFORCE_KEYS, obs['inforce']))}, Registry.after {tab}")
             if not builtins_in_force(case):
                 return None  # a user processor is in force: outside the model and outside the property
             if obs.get("ok") != out.get("ok"):
